@@ -6,7 +6,6 @@ import (
 	"errors"
 	"io"
 	"net/http"
-	"net/url"
 	"strings"
 	"sync"
 
@@ -117,7 +116,7 @@ func (d *uripostDecoder) readBlock(reader *bufio.Reader, commonHeader http.Heade
 	if err != nil {
 		return nil, err
 	}
-	_, err = url.Parse(uri)
+	_, err = util.ParseURI(uri)
 	if err != nil {
 		return nil, err
 	}
